@@ -297,18 +297,3 @@ Print Assumptions C07_support_tight.
 Print Assumptions C07_defined_partial.
 Print Assumptions C07_spectrum_defined_partial.
 Print Assumptions C07_defined_builtin.
-
-(* ---- composition with the generated kinematics / wrappers / grid-resolution / simple phase-matching models (Proofs/Compose_*.v) ---- *)
-From SpdVerif Require Import Gen.Wrappers Proofs.Compose_wrappers.
-
-(* The rate theorems above are about the functions counts_coincidences / counts_singles_signal / counts_singles_idler of
-   src/spdc/counts.rs (and efficiencies of efficiencies.rs).  The methods of the same names on the SPDC object — what a user of the
-   crate calls — are translated as forwarders (Gen/Wrappers.v: callee and forwarded arguments in source order): each hands
-   (self, ranges.into(), integrator), in that order and unchanged, to its callee f.  So the scaling laws hold of what the methods return. *)
-Theorem C07_counts_methods_forward : forall (obj : Type) (f : spdc obj -> obj -> obj -> obj) (s : spdc obj) (ranges integrator : obj),
-  SPDC_counts_coincidences_gen f s ranges integrator = f s ranges integrator /\
-  SPDC_counts_singles_signal_gen f s ranges integrator = f s ranges integrator /\
-  SPDC_counts_singles_idler_gen f s ranges integrator = f s ranges integrator /\
-  SPDC_efficiencies_gen f s ranges integrator = f s ranges integrator.
-Proof. exact wrap_counts_order. Qed.
-Print Assumptions C07_counts_methods_forward.
